@@ -311,9 +311,16 @@ func ScratchRoot() string {
 		base = os.TempDir()
 	}
 	d := fmt.Sprintf("%s/verif-%d", base, os.Getpid())
+	if !scratchFresh {
+		// a killed earlier process may have had the same pid
+		os.RemoveAll(d)
+		scratchFresh = true
+	}
 	os.MkdirAll(d, 0755)
 	return d
 }
+
+var scratchFresh bool
 
 // CleanScratch removes this process's scratch directory.
 func CleanScratch() { os.RemoveAll(ScratchRoot()) }
